@@ -307,9 +307,19 @@ func (e *Enc) callExternal(ci ssa.CallInstruction, c *ssa.CallCommon, name strin
 		return []Term{r}, nil
 	case "time.NewTimer":
 		r := e.allocRef(types.Typ[types.Int])
+		h := e.lookup(e.cur, "G$timerDelay", ArraySort(SInt, SInt))
+		e.set(e.cur, "G$timerDelay", Store(h, r, args[0]))
+		hs := e.lookup(e.cur, "G$timerStopped", ArraySort(SInt, SBool))
+		e.set(e.cur, "G$timerStopped", Store(hs, r, TFalse))
 		return []Term{r}, nil
-	case "(*time.Ticker).Stop", "(*time.Timer).Stop", "(*time.Ticker).Reset", "(*time.Timer).Reset":
+	case "(*time.Ticker).Stop", "(*time.Timer).Stop":
 		e.oblige("SAFE.nil", "", nil, Not(Eq(args[0], IntLit(0))), "nil ticker/timer", ci.Pos())
+		hs := e.lookup(e.cur, "G$timerStopped", ArraySort(SInt, SBool))
+		e.set(e.cur, "G$timerStopped", Store(hs, args[0], TTrue))
+		return e.freshResults(sig), nil
+	case "(*time.Ticker).Reset", "(*time.Timer).Reset":
+		e.oblige("SAFE.nil", "", nil, Not(Eq(args[0], IntLit(0))), "nil ticker/timer", ci.Pos())
+		e.abstracted["Ticker/Timer.Reset: not modelled (period/stopped ghost state unchanged)"] = true
 		return e.freshResults(sig), nil
 	case "time.Sleep":
 		return nil, nil
@@ -517,7 +527,12 @@ func (e *Enc) extParseDuration(s Term) []Term {
 
 func (e *Enc) onSplit(ci ssa.CallInstruction, r, s, sep Term) {}
 
-func (e *Enc) onNewTicker(ci ssa.CallInstruction, r, d Term) {}
+func (e *Enc) onNewTicker(ci ssa.CallInstruction, r, d Term) {
+	h := e.lookup(e.cur, "G$tickerPeriod", ArraySort(SInt, SInt))
+	e.set(e.cur, "G$tickerPeriod", Store(h, r, d))
+	hs := e.lookup(e.cur, "G$timerStopped", ArraySort(SInt, SBool))
+	e.set(e.cur, "G$timerStopped", Store(hs, r, TFalse))
+}
 
 func (e *Enc) onContext(ci ssa.CallInstruction, name string, ctx, cancel Term, args []Term) {}
 
